@@ -97,3 +97,9 @@ a7f = ak.Array(L.IndexedOptionArray64(I64(0, -1), L.RecordArray([L.UnionArray8_6
 show('arrow-validity-bitmap-shorter-than-content', ak.to_list(a7f), lambda: ak.to_arrow(a7f).to_pylist())
 a7g = ak.Array(L.IndexedOptionArray64(I64(), L.UnionArray8_64(I8(), I64(), [L.NumpyArray(np.array([], 'f8')), L.NumpyArray(np.array([], '?'))])))
 show('arrow-empty-option-content-cast', '[]', lambda: ak.to_arrow(a7g).to_pylist())
+
+# 8. later additions
+a8 = ak.Array(L.ListOffsetArray64(I64(100, 100), L.NumpyArray(np.array([1, 2, 3]))))
+show('buffers-empty-lists-offsets-beyond-content', ak.to_list(a8), lambda: rt(a8))
+a8b = ak.Array(L.RecordArray([L.ByteMaskedArray(I8(1, 0, 1), L.NumpyArray(np.array([7, 8, 9])), False)], ['x'], 3))
+show('to_numpy-record-drops-field-masks', ak.to_list(a8b), lambda: ak.to_numpy(a8b).tolist())
